@@ -438,8 +438,9 @@ def t6(ctx, rid):
         raise core.AnchorLost('operations on HierarchicalFilters.children: %d' % n)
 
 
-def slot_empty_events(prog):
-    """blocks on whose entry the active slot (seen through the guard in hand) is known to be empty: the None edge of a match /
+def slot_empty_events(prog, roots=None):
+    """(roots: optional dict filled with block -> access root local of the tested place)
+    blocks on whose entry the active slot (seen through the guard in hand) is known to be empty: the None edge of a match /
     `if let` on `..active_blob`, the true edge of `.active_blob.is_none()` (false edge of is_some()), the return of a take()"""
     def ev(g):
         out = []
@@ -453,20 +454,29 @@ def slot_empty_events(prog):
                     names = core.place_fields(r['p'])
                     ty = core.place_type_str(g, r['p']) or ''
                     if names and names[-1] == 'active_blob' or (not names and 'Option<std::boxed::Box<async_lock::RwLock<blob::core::Blob<' in ty and _from_slot(g, r['p'][0])):
-                        for v, tg in t['vals']:
-                            if v == 0:
-                                out.append(tg)
+                        new = [tg for v, tg in t['vals'] if v == 0]
                         if all(v == 1 for v, _ in t['vals']):
-                            out.append(t['otherwise'])
+                            new.append(t['otherwise'])
+                        out += new
+                        if roots is not None:
+                            for x in new:
+                                roots[(g.id, x)] = core.access_root(g, r['p'][0])
                 elif kind == 'call' and r.name in ('is_none', 'is_some') and r.path.startswith('std::option::Option') and prims.receiver_field(g, r) == 'active_blob':
+                    new = []
                     for v, tg in t['vals']:
                         if v == 0 and r.name == 'is_some':
-                            out.append(tg)
+                            new.append(tg)
                     if r.name == 'is_none' and all(v == 0 for v, _ in t['vals']):
-                        out.append(t['otherwise'])
+                        new.append(t['otherwise'])
+                    out += new
+                    if roots is not None and r.args and op_local(r.args[0]) is not None:
+                        for x in new:
+                            roots[(g.id, x)] = core.access_root(g, op_local(r.args[0]))
         for c in g.calls:
             if c.name == 'take' and c.path.startswith('std::option::Option') and prims.receiver_field(g, c) == 'active_blob' and c.t['t'] is not None:
                 out.append(c.t['t'])
+                if roots is not None and op_local(c.args[0]) is not None:
+                    roots[(g.id, c.t['t'])] = core.access_root(g, op_local(c.args[0]))
         return out
     return ev
 
@@ -480,7 +490,8 @@ def t7(ctx, rid):
     or only where the slot was seen empty under the guard in hand (a separate acquisition does not count), or the previous
     content was moved out by take()/replace() (accounted for by the move-out rules)"""
     prog = ctx.prog
-    ev = slot_empty_events(prog)
+    roots = {}
+    ev = slot_empty_events(prog, roots)
     n = 0
     for (f, bb, o, how) in core.field_sources(prog, 'storage::core::Safe', 'active_blob'):
         if how == 'construct':
@@ -496,6 +507,18 @@ def t7(ctx, rid):
             continue
         ok, w = core.dominated_up(prog, f, bb, ev)
         if ok:
+            # same guard: when the test is in this body, it must be made through the guard / reference the store goes through
+            here = [e for e in ev(f) if bb in f.reach_from([e])]
+            if here and bb not in f.reach_from([0], avoid_enter=here):
+                sroot = None
+                for st in f.blocks[bb]['s']:
+                    if st['k'] == 'a' and core.place_fields(st['d'])[-1:] == ['active_blob']:
+                        sroot = core.access_root(f, st['d'][0])
+                troots = {roots.get((f.id, e)) for e in here}
+                if sroot is not None and None not in troots and sroot not in troots:
+                    ctx.bad(rid, key, f.where(bb), 'the emptiness of the active slot is tested through `%s` but the assignment goes through `%s`: between the two acquisitions another operation can install a blob, which is then overwritten and dropped' % (
+                        sorted('_%d: %s' % (x, f.locals[x]['s'][:50]) for x in troots), '_%d: %s' % (sroot, f.locals[sroot]['s'][:50])))
+                    continue
             ctx.ok(rid, key, f.where(bb), 'dominated by an emptiness test of the slot (or a take) made through the guard in hand')
         else:
             ctx.bad(rid, key, f.where(bb), 'the active slot is assigned without having been seen empty under the same exclusive guard: a blob installed by a concurrent operation since the last (separately locked) test is overwritten and dropped - the records it acknowledged are no longer served', witness=w)
